@@ -54,7 +54,12 @@ impl StreamState {
 }
 
 pub struct Stream {
+    /// Send window toward the frontend peer (response DATA), RFC 9113 §6.9.
     pub window: i32,
+    /// Send window toward an H2 backend peer (request DATA). Flow control is
+    /// hop-by-hop: this is seeded from the backend's SETTINGS_INITIAL_WINDOW_SIZE
+    /// when the stream is started on a backend connection.
+    pub back_window: i32,
     pub attempts: u8,
     pub state: StreamState,
     /// True when the frontend connection has received end_of_stream from the client.
@@ -147,6 +152,7 @@ impl Stream {
             state: StreamState::Idle,
             attempts: 0,
             window: i32::try_from(window).unwrap_or(i32::MAX),
+            back_window: i32::try_from(window).unwrap_or(i32::MAX),
             front_received_end_of_stream: false,
             back_received_end_of_stream: false,
             front_data_received: 0,
@@ -242,6 +248,14 @@ impl Stream {
         front_done && back_done
     }
 
+    /// The send window this stream uses on a connection in the given position.
+    pub fn send_window(&mut self, position: &Position) -> &mut i32 {
+        match position {
+            Position::Client(..) => &mut self.back_window,
+            Position::Server => &mut self.window,
+        }
+    }
+
     pub fn split(&mut self, position: &Position) -> StreamParts<'_> {
         // Pre: the front buffer always parses requests and the back buffer
         // always parses responses. `split` only re-labels them as read/write
@@ -258,7 +272,7 @@ impl Stream {
         );
         match position {
             Position::Client(..) => StreamParts {
-                window: &mut self.window,
+                window: &mut self.back_window,
                 rbuffer: &mut self.back,
                 wbuffer: &mut self.front,
                 received_end_of_stream: &mut self.back_received_end_of_stream,
